@@ -67,6 +67,9 @@ def pos_to_slope_interp(l: list) -> list:
     output = []
     # for sequential pairs in landscape function
     for [[x0, y0], [x1, y1]] in zip(l, l[1:]):
+        if x1 == x0:
+            # zero-width segment (e.g. from a bar of zero length): no slope to record
+            continue
         slope = (y1 - y0) / (x1 - x0)
         output.append([x0, slope])
     output.append([l[-1][0], 0])
